@@ -1392,19 +1392,32 @@ def encdec(part, job, key, name, G, messages, valid, size_class=None):
     failed = 0
     for m in messages:
         part.case(key=None, nontrivial=m > 0)
+        try:
+            with Deadline(10):
+                failed += encdec_one(part, job, key, name, G, m, valid, size_class)
+        except CpuTimeout as e:
+            part.violation(f'C27:{key}:encode-decode:hangs', f'{name}: encode/decode/operations on the encoding of {m}: {e}',
+                           dict(job=job, only=name))
+            break
+    part.note('encode_failed_documented', failed)
+    part.note('messages', len(messages))
+    part.note('messages_by_family', {key.split('/')[0].split(':')[0]: len(messages)})
+
+
+def encdec_one(part, job, key, name, G, m, valid, size_class):
+    if True:
         cls = size_class(m) if size_class else ''
         try:
             enc = G.encode(m)
         except ValueError as e:
             if 'encoding failed' in str(e):
-                failed += 1
-                continue
+                return 1
             enc = e
         except Exception as e:
             enc = e
         if isinstance(enc, Exception) or enc is None:
             part.violation(f'C27:{key}:encode:raises', f'{name}: encode({m}) gives {enc!r}', dict(job=job, only=name))
-            continue
+            return 0
         M, Z = enc
         why = valid(M) or valid(Z)
         if why:
@@ -1430,9 +1443,7 @@ def encdec(part, job, key, name, G, messages, valid, size_class=None):
         if got != m or isinstance(got, bool) or not isinstance(got, int):
             part.violation(f'C27:{key}:decode' + (f':{cls}' if cls else ''),
                            f'{name}: decode(encode({m})) = {got!r}', dict(job=job, only=name))
-    part.note('encode_failed_documented', failed)
-    part.note('messages', len(messages))
-    part.note('messages_by_family', {key.split('/')[0].split(':')[0]: len(messages)})
+    return 0
 
 
 def job_encdec(part, job, fg):
